@@ -20,8 +20,10 @@ import (
 // runOnDemand without a runOnUnDemand in between; the first command is never stopped.
 //
 // Rule: for every store of the constant `initial` (0) into path.onDemandPublisherState
-// anywhere in internal/core, every path from the entry of the storing function to
-// the store passes a call of the closure held in path.onUnDemandHook. When the store
+// anywhere in internal/core, every path of the storing function that passes the
+// store also passes a call of the closure held in path.onUnDemandHook - before or
+// after it (there is no way to the store without the call, or no way from the
+// store to a return without it). When the store
 // sits in a helper that does not call the closure itself, the obligation moves to
 // every static call site of the helper (up to three levels), so extracting the
 // reset into a helper called after the hook is not reported.
@@ -47,19 +49,29 @@ func c20InitialAfterStop(c *Ctx, p *Prog) {
 	}
 	var reach func(fn *ssa.Function, target ssa.Instruction, depth int) string
 	reach = func(fn *ssa.Function, target ssa.Instruction, depth int) string {
-		w := (&Walker{
-			Visit: func(x ssa.Instruction) int {
-				if isHookCall(x) {
-					return wStop
-				}
-				if x == target {
-					return wHit
-				}
-				return wContinue
-			},
-			Edge: func(Lit) bool { return true },
-		}).Run(entry(fn))
+		walk := func(from Point, hit func(ssa.Instruction) bool) *Witness {
+			return (&Walker{
+				Visit: func(x ssa.Instruction) int {
+					if isHookCall(x) {
+						return wStop
+					}
+					if hit(x) {
+						return wHit
+					}
+					return wContinue
+				},
+				Edge: func(Lit) bool { return true },
+			}).Run(from)
+		}
+		// the closure may run before or after the store (both fields belong to the
+		// path goroutine, nothing observes the order): a violating run needs a way
+		// to the store without the call AND a way from the store to a return
+		// without it
+		w := walk(entry(fn), func(x ssa.Instruction) bool { return x == target })
 		if w == nil {
+			return ""
+		}
+		if walk(after(target), anyReturn) == nil {
 			return ""
 		}
 		if depth == 0 {
